@@ -649,6 +649,285 @@ theorem placed_within_length (ch : Chip) (us : List UContainer) (hA : 0 < ch.ima
   omega
 
 
+/-! ### contents of the exported signature block -/
+
+theorem slice_blitL_same (buf : Bytes) (off L : Nat) (d : Bytes) (h : off ≤ buf.length) :
+    slice (blitL buf off L d) off d.length = d := by
+  unfold blitL
+  have hl : (buf.take off).length = off := by simp; omega
+  rw [List.append_assoc]
+  have := slice_append_right (buf.take off) (d ++ buf.drop (off + L)) 0 d.length
+  rw [hl, Nat.add_zero] at this
+  rw [this, slice_append_left _ _ _ _ (by omega), slice_full]
+
+theorem slice_blitL_before (buf : Bytes) (off L : Nat) (d : Bytes) (k n : Nat) (h : k + n ≤ off) (hb : off ≤ buf.length) :
+    slice (blitL buf off L d) k n = slice buf k n := by
+  unfold blitL
+  rw [List.append_assoc, slice_append_left _ _ _ _ (by simp; omega)]
+  unfold slice
+  rw [List.drop_take, List.take_take]
+  congr 1; omega
+
+theorem slice_blitL_after (buf : Bytes) (off L : Nat) (d : Bytes) (k n : Nat) (h : off + L ≤ k) (hd : d.length = L)
+    (hb : off ≤ buf.length) : slice (blitL buf off L d) k n = slice buf k n := by
+  unfold blitL
+  have hl : (buf.take off ++ d).length = off + L := by simp [hd]; omega
+  have := slice_append_right (buf.take off ++ d) (buf.drop (off + L)) (k - (off + L)) n
+  rw [hl] at this
+  rw [show k = off + L + (k - (off + L)) from by omega, this]
+  unfold slice
+  rw [List.drop_drop]
+
+theorem slice_blitB_same (buf : Bytes) (off : Nat) (d : Bytes) (h : off ≤ buf.length) (hne : d ≠ []) :
+    slice (blitB buf off d) off d.length = d := by
+  unfold blitB
+  have : d.isEmpty = false := by cases d <;> simp_all
+  rw [this]; exact slice_blitL_same buf off d.length d h
+
+theorem slice_blitB_other (buf : Bytes) (off : Nat) (d : Bytes) (k n : Nat)
+    (h : d = [] ∨ ((k + n ≤ off ∨ off + d.length ≤ k) ∧ off ≤ buf.length)) :
+    slice (blitB buf off d) k n = slice buf k n := by
+  unfold blitB
+  split
+  · rfl
+  · rcases h with h | ⟨h | h, hb⟩
+    · subst h; simp at *
+    · exact slice_blitL_before _ _ _ _ _ _ h hb
+    · exact slice_blitL_after _ _ _ _ _ _ h rfl hb
+
+/-- where every part of an exported signature block lies -/
+theorem sigblock_content (v : Ver) (sb : SigBlock) (s : Bytes) (hb : BlobLenOK sb)
+    (h : encodeSigBlock v sb (sbLayout v sb) = .ok s) :
+    ∃ hdr sg sg2 bl, sbHeader v (sbLayout v sb) sb.keyId = .ok hdr ∧ encodeSignature sb.signature = .ok sg ∧
+      encodeSignature sb.signature2 = .ok sg2 ∧ encodeBlobOpt sb = .ok bl ∧
+      s.length = (sbLayout v sb).length ∧
+      slice s 0 16 = hdr ∧
+      (sb.srk ≠ [] → slice s (sbLayout v sb).srkOff sb.srk.length = sb.srk) ∧
+      (sg ≠ [] → slice s (sbLayout v sb).sigOff sg.length = sg) ∧
+      (v = .v2 → sg ≠ [] → sg2 ≠ [] → slice s ((sbLayout v sb).sigOff + sg.length) sg2.length = sg2) ∧
+      (sb.cert ≠ [] → slice s (sbLayout v sb).certOff sb.cert.length = sb.cert) ∧
+      (∀ b, sb.blob = some b → slice s (sbLayout v sb).blobOff bl.length = bl) := by
+  unfold encodeSigBlock at h
+  cases hh : sbHeader v (sbLayout v sb) sb.keyId with
+  | error e => rw [hh] at h; cases h
+  | ok hdr =>
+    rw [hh] at h; simp only at h
+    cases hsg : encodeSignature sb.signature with
+    | error e => rw [hsg] at h; cases h
+    | ok sg =>
+      rw [hsg] at h; simp only at h
+      cases hsg2 : encodeSignature sb.signature2 with
+      | error e => rw [hsg2] at h; cases h
+      | ok sg2 =>
+        rw [hsg2] at h; simp only at h
+        cases hbl : encodeBlobOpt sb with
+        | error e => rw [hbl] at h; cases h
+        | ok bl =>
+          rw [hbl] at h; cases h
+          have L := sigblock_layout v sb
+          simp only at L
+          obtain ⟨z1, z2, z3, z4, p1, p2, p3, p4, h16, _⟩ := L
+          have hge := sigSize_ge v sb
+          have hsgl := encodeSignature_length hsg
+          have hsg2l := encodeSignature_length hsg2
+          have hhl := sbHeader_length hh
+          have hblen : ∀ b, sb.blob = some b → bl.length = 8 + b.keyblob.length := by
+            intro b hbs; unfold encodeBlobOpt at hbl; rw [hbs] at hbl; exact encodeBlob_length hbl
+          generalize ho : sbLayout v sb = o at *
+          refine ⟨hdr, sg, sg2, bl, rfl, rfl, rfl, rfl, ?_⟩
+          -- stage 1: header
+          have l1 : (blitB (zerosB o.length) 0 hdr).length = o.length := by
+            rw [blitB_length _ _ _ (by rw [hhl, zerosB_length]; omega), zerosB_length]
+          have hdrne : hdr ≠ [] := by intro h0; rw [h0] at hhl; simp at hhl
+          have c1 : slice (blitB (zerosB o.length) 0 hdr) 0 16 = hdr := by
+            have := slice_blitB_same (zerosB o.length) 0 hdr (by omega) hdrne
+            rw [hhl] at this; exact this
+          -- stage 2: SRK
+          have hsrk : sb.srk = [] ∨ (16 ≤ o.srkOff ∧ o.srkOff + sb.srk.length ≤ o.length) := by
+            by_cases hs : sb.srk.length = 0
+            · exact Or.inl (List.eq_nil_of_length_eq_zero hs)
+            · exact Or.inr (p1 hs)
+          have l2 : (sbHead o hdr sb.srk).length = o.length :=
+            sbHead_length o hdr sb.srk hhl h16 (by rcases hsrk with h | h; exact Or.inl (by rw [h]; rfl); exact Or.inr h.2)
+          have c2h : slice (sbHead o hdr sb.srk) 0 16 = hdr := by
+            unfold sbHead
+            rw [slice_blitB_other _ _ _ _ _ (by
+              rcases hsrk with h | h
+              · exact Or.inl h
+              · exact Or.inr ⟨Or.inl (by omega), by rw [l1]; omega⟩), c1]
+          have c2s : sb.srk ≠ [] → slice (sbHead o hdr sb.srk) o.srkOff sb.srk.length = sb.srk := by
+            intro hne
+            unfold sbHead
+            rcases hsrk with h | h
+            · exact absurd h hne
+            · exact slice_blitB_same _ _ _ (by rw [l1]; omega) hne
+          -- presence facts
+          have sgE : sg = [] ↔ sb.signature.isEmpty = true := by
+            constructor
+            · intro h0
+              have : signatureLen sb.signature = 0 := by rw [← hsgl, h0]; rfl
+              unfold signatureLen at this
+              split at this
+              · assumption
+              · have : AhabConsts.signatureLayout.size = 8 := rfl
+                omega
+            · intro h0
+              exact List.eq_nil_of_length_eq_zero (by rw [hsgl]; simp [signatureLen, h0])
+          have hsig : sg = [] ∨ (16 ≤ o.sigOff ∧ (sb.srk ≠ [] → o.srkOff + sb.srk.length ≤ o.sigOff) ∧
+              o.sigOff + sg.length ≤ o.length ∧ (v = .v2 → o.sigOff + sg.length + sg2.length ≤ o.length) ∧ sb.sigSize v ≠ 0) := by
+            by_cases h0 : sg = []
+            · exact Or.inl h0
+            · right
+              have hpos : 0 < sg.length := List.length_pos_iff.2 h0
+              have hs2 : sb.sigSize v ≠ 0 := by have := hge.1; omega
+              have q := p2 hs2
+              refine ⟨q.1, fun hne => q.2.1 (fun h => hne (List.eq_nil_of_length_eq_zero h)), by have := hge.1; omega, ?_, hs2⟩
+              intro hv; have := hge.2 hv hs2; omega
+          have hcert : sb.cert = [] ∨ (16 ≤ o.certOff ∧ (sb.srk ≠ [] → o.srkOff + sb.srk.length ≤ o.certOff) ∧
+              (sb.sigSize v ≠ 0 → o.sigOff + sb.sigSize v ≤ o.certOff) ∧ o.certOff + sb.cert.length ≤ o.length) := by
+            by_cases h0 : sb.cert.length = 0
+            · exact Or.inl (List.eq_nil_of_length_eq_zero h0)
+            · have q := p3 h0
+              exact Or.inr ⟨q.1, fun hne => q.2.1 (fun h => hne (List.eq_nil_of_length_eq_zero h)), q.2.2.1, q.2.2.2⟩
+          have hblob : ∀ b, sb.blob = some b → 16 ≤ o.blobOff ∧ (sb.srk ≠ [] → o.srkOff + sb.srk.length ≤ o.blobOff) ∧
+              (sb.sigSize v ≠ 0 → o.sigOff + sb.sigSize v ≤ o.blobOff) ∧ (sb.cert ≠ [] → o.certOff + sb.cert.length ≤ o.blobOff) ∧
+              o.blobOff + b.length = o.length ∧ bl.length = b.length := by
+            intro b hbs
+            have hbL := hb b hbs
+            have hs4 : sb.blobLen = b.length := by simp [SigBlock.blobLen, hbs]
+            have q := p4 (by omega)
+            rw [hs4] at q
+            exact ⟨q.1, fun hne => q.2.1 (fun h => hne (List.eq_nil_of_length_eq_zero h)), q.2.2.1,
+              fun hne => q.2.2.2.1 (fun h => hne (List.eq_nil_of_length_eq_zero h)), q.2.2.2.2, by rw [hblen b hbs, hbL]⟩
+          -- stage 3..6
+          generalize hB : sbHead o hdr sb.srk = B at l2 c2h c2s
+          have l3 : (blitB B o.sigOff sg).length = o.length := by
+            rcases hsig with h0 | h0
+            · rw [h0, blitB_nil]; exact l2
+            · rw [blitB_length _ _ _ (by omega), l2]
+          have l4 : (sig2Step v sb o (blitB B o.sigOff sg) sg sg2).length = o.length := by
+            unfold sig2Step
+            cases v
+            · exact l3
+            · simp only
+              split
+              · exact l3
+              · rename_i hne
+                rcases hsig with h0 | h0
+                · exact absurd (sgE.1 h0) hne
+                · rw [blitB_length _ _ _ (by have := h0.2.2.2.1 rfl; omega), l3]
+          have l5 : (blitB (sig2Step v sb o (blitB B o.sigOff sg) sg sg2) o.certOff sb.cert).length = o.length := by
+            rcases hcert with h0 | h0
+            · rw [h0, blitB_nil]; exact l4
+            · rw [blitB_length _ _ _ (by omega), l4]
+          have keep5 : ∀ k n, (∀ b, sb.blob = some b → k + n ≤ o.blobOff) →
+              slice (sbTail v sb o B sg sg2 bl) k n =
+                slice (blitB (sig2Step v sb o (blitB B o.sigOff sg) sg sg2) o.certOff sb.cert) k n := by
+            intro k n hk
+            unfold sbTail blobStep
+            cases hbs : sb.blob with
+            | none => rfl
+            | some b =>
+              simp only
+              exact slice_blitL_before _ _ _ _ _ _ (hk b hbs) (by rw [l5]; have := (hblob b hbs).2.2.2.2.1; omega)
+          have keep4 : ∀ k n, (∀ b, sb.blob = some b → k + n ≤ o.blobOff) → (sb.cert = [] ∨ k + n ≤ o.certOff) →
+              slice (sbTail v sb o B sg sg2 bl) k n = slice (sig2Step v sb o (blitB B o.sigOff sg) sg sg2) k n := by
+            intro k n hk hc
+            rw [keep5 k n hk, slice_blitB_other _ _ _ _ _ (by
+              rcases hc with h0 | h0
+              · exact Or.inl h0
+              · rcases hcert with h1 | h1
+                · exact Or.inl h1
+                · exact Or.inr ⟨Or.inl h0, by rw [l4]; omega⟩)]
+          have keep3 : ∀ k n, (∀ b, sb.blob = some b → k + n ≤ o.blobOff) → (sb.cert = [] ∨ k + n ≤ o.certOff) →
+              (v = .v1 ∨ sg = [] ∨ sg2 = [] ∨ k + n ≤ o.sigOff + sg.length) →
+              slice (sbTail v sb o B sg sg2 bl) k n = slice (blitB B o.sigOff sg) k n := by
+            intro k n hk hc h2
+            rw [keep4 k n hk hc]
+            unfold sig2Step
+            cases v
+            · rfl
+            · simp only
+              split
+              · rfl
+              · rename_i hne
+                rw [slice_blitB_other _ _ _ _ _ (by
+                  rcases h2 with h0 | h0 | h0 | h0
+                  · cases h0
+                  · exact absurd (sgE.1 h0) hne
+                  · exact Or.inl h0
+                  · exact Or.inr ⟨Or.inl h0, by
+                      rw [l3]
+                      rcases hsig with h1 | h1
+                      · exact absurd (sgE.1 h1) hne
+                      · omega⟩)]
+          have keep2 : ∀ k n, (∀ b, sb.blob = some b → k + n ≤ o.blobOff) → (sb.cert = [] ∨ k + n ≤ o.certOff) →
+              (sg = [] ∨ k + n ≤ o.sigOff) → slice (sbTail v sb o B sg sg2 bl) k n = slice B k n := by
+            intro k n hk hc hs
+            rw [keep3 k n hk hc (by
+              rcases hs with h0 | h0
+              · exact Or.inr (Or.inl h0)
+              · exact Or.inr (Or.inr (Or.inr (by omega)))), slice_blitB_other _ _ _ _ _ (by
+              rcases hs with h0 | h0
+              · exact Or.inl h0
+              · rcases hsig with h1 | h1
+                · exact Or.inl h1
+                · exact Or.inr ⟨Or.inl h0, by rw [l2]; omega⟩)]
+          have lS : (sbTail v sb o B sg sg2 bl).length = o.length := by
+            unfold sbTail blobStep
+            cases hbs : sb.blob with
+            | none => exact l5
+            | some b =>
+              simp only
+              have q := hblob b hbs
+              rw [blitL_length _ _ _ _ (by rw [l5]; omega) q.2.2.2.2.2, l5]
+          refine ⟨lS, ?_, ?_, ?_, ?_, ?_, ?_⟩
+          · -- header
+            rw [keep2 0 16 (fun b hbs => by have := (hblob b hbs).1; omega)
+              (by rcases hcert with h0 | h0; exact Or.inl h0; exact Or.inr (by omega))
+              (by rcases hsig with h0 | h0; exact Or.inl h0; exact Or.inr (by omega)), c2h]
+          · -- SRK
+            intro hne
+            rw [keep2 _ _ (fun b hbs => (hblob b hbs).2.1 hne)
+              (by rcases hcert with h0 | h0; exact Or.inl h0; exact Or.inr (h0.2.1 hne))
+              (by rcases hsig with h0 | h0; exact Or.inl h0; exact Or.inr (h0.2.1 hne)), c2s hne]
+          · -- signature
+            intro hne
+            rcases hsig with h0 | h0
+            · exact absurd h0 hne
+            · have hs2 := h0.2.2.2.2
+              have hle := hge.1
+              rw [keep3 _ _ (fun b hbs => by have := (hblob b hbs).2.2.1 hs2; omega)
+                (by rcases hcert with h1 | h1; exact Or.inl h1; exact Or.inr (by have := h1.2.2.1 hs2; omega))
+                (Or.inr (Or.inr (Or.inr (Nat.le_refl _)))),
+                slice_blitB_same _ _ _ (by rw [l2]; omega) hne]
+          · -- second signature
+            intro hv hne hne2
+            subst hv
+            rcases hsig with h0 | h0
+            · exact absurd h0 hne
+            · have hs2 := h0.2.2.2.2
+              have hsum := hge.2 rfl hs2
+              rw [keep4 _ _ (fun b hbs => by have := (hblob b hbs).2.2.1 hs2; omega)
+                (by rcases hcert with h1 | h1; exact Or.inl h1; exact Or.inr (by have := h1.2.2.1 hs2; omega))]
+              unfold sig2Step
+              simp only
+              have hnE : ¬ (sb.signature.isEmpty = true) := fun h => hne (sgE.2 h)
+              rw [if_neg hnE]
+              exact slice_blitB_same _ _ _ (by rw [l3]; have := h0.2.2.2.1 rfl; omega) hne2
+          · -- certificate
+            intro hne
+            rcases hcert with h0 | h0
+            · exact absurd h0 hne
+            · rw [keep5 _ _ (fun b hbs => (hblob b hbs).2.2.2.1 hne), slice_blitB_same _ _ _ (by rw [l4]; omega) hne]
+          · -- blob
+            intro b hbs
+            have q := hblob b hbs
+            unfold sbTail blobStep
+            rw [hbs]
+            simp only
+            exact slice_blitL_same _ _ _ _ (by rw [l5]; omega)
+
 /-! ### negative statements as reductions -/
 
 section reductions
@@ -692,7 +971,7 @@ theorem padHash_inj (d d' : Bytes) (hl : d.length = d'.length) (h : padHash d = 
     the two different image contents collide under the declared hash -/
 theorem tamper_image_reduction (c : CryptoOps) (hc : CryptoLaws c) (p : Params) (bin bin' : Bytes) (base pos : Nat)
     (dek dek' : Option Bytes) (r r' : ImageRep)
-    (hent : slice bin pos iaeSize = slice bin' pos iaeSize) (hpl : pos + iaeSize ≤ bin.length) (_hpl' : pos + iaeSize ≤ bin'.length)
+    (hent : slice bin pos iaeSize = slice bin' pos iaeSize) (hpl : pos + iaeSize ≤ bin.length)
     (h : checkEntry c p bin base pos dek = .ok r) (h' : checkEntry c p bin' base pos dek' = .ok r')
     (hdiff : slice bin r.offset r.size ≠ slice bin' r.offset r.size) : Break c := by
   obtain ⟨o1, s1, f1, _, a, ha, hh⟩ := checkEntry_ok c p bin base pos dek r h
